@@ -55,7 +55,7 @@ def cases(tier, rng):
             add("server", form, s + loc(s, i), "1" if form == "json" else "0")
     for s in ("ws", "wss", "http+tls", "ws+tls", "stdio", "stdio+tls", "unixpacket+tls", "udp4", "dns", "dns+tcp+tls"):
         i += 1
-        add("server", "json", s + loc(s, i), "1" if s in ("ws", "wss", "http+tls", "ws+tls") else "0", src="undocumented")
+        add("server", "json", s + loc(s, i), "1" if s in ("ws", "wss", "http+tls", "ws+tls", "dns+tcp+tls") else "0", src="undocumented")
     for s in ("foo", "TCP", "tcp+TLS", "tcp+", "+tls", "tcp+tls+tls", "tcps", "tls+tcp", "http+", "dns+", "udp+tls", ""):
         add("server", "json", s + "://127.0.0.1:0", "1", src="neighbour")
         add("server", "yaml", s + "://127.0.0.1:0", "0", src="neighbour")
@@ -79,10 +79,26 @@ def cases(tier, rng):
     for t in ("svc", "svc~", "~tcp://h:1", "svc~tcp://h:1~", "svc~tcp://h:1~tcp://x:1~extra", "a~b~c", "", '{"address":"tcp://127.0.0.1:1","name":"x"}',
               '}{"address":"tcp://127.0.0.1:1"}', '}{"address":5}', "}{}"):
         add("listener", "flag", t, model=False, src="malformed")
+    # an upstream object keeps its transport when it connects again (after a failed attempt, after a lost session): a TLS scheme opens
+    # with a TLS hello every time
+    for kind in ("tcp+tls", "wss"):
+        line = "c04first %s 3" % kind
+        cs.append({"line": line, "key": line, "model": False, "tags": {"pos": "upstream-reconnect", "form": "flag", "text": kind, "src": "doc"}})
     return cs
 
 
+def oracle_reconnect(case, impl):
+    p = impl.split()
+    if not p or p[0] != "first":
+        return [("crash;pos=upstream-reconnect", "scenario did not complete: " + impl[:100])]
+    if any(x != "22" for x in p[1:]):
+        return [("tls-dropped-on-reconnect;scheme=" + case["tags"]["text"], "a %s upstream opened a connection that does not start with a TLS hello (first octets %s)" % (case["tags"]["text"], " ".join(p[1:])))]
+    return []
+
+
 def oracle(case, impl):
+    if case["tags"]["pos"] == "upstream-reconnect":
+        return oracle_reconnect(case, impl)
     t = case["tags"]
     p = impl.split()
     if not p or p[0] in ("panic", "died", "timeout", "harness-error"):
